@@ -26,7 +26,7 @@ EqScen == {[writer |-> wr, nbuf |-> 2, eqcorner |-> TRUE, ctype |-> cp[1], cleve
 \* the CLI writer onto an existing file with --force-create: the archive must not keep anything of the old file
 ExistScen == {[writer |-> "cli", nbuf |-> 2, src |-> s, bs |-> 64, ctype |-> 0, hl |-> 64, meta |-> 0, delivery |-> d, transport |-> "local", sched |-> "natural",
                over_existing |-> oe, reruns |-> <<[nbuf |-> 3, delivery |-> "file", sched |-> "natural", over_existing |-> "longer"]>>]
-              : s \in {<<>>, <<1>>, <<1, 2, 1>>}, d \in {"file", "pipe"}, oe \in {"longer", "shorter"}}
+              : s \in {<<>>, <<1>>, <<1, 2, 1>>}, d \in {"file", "pipe"}, oe \in {"longer", "shorter", "none+tmplong", "none+tmpshort", "longer+tmplong", "shorter+tmpshort"}}
 LenSeq == <<"0", "1", "ltw", "ltmin", "eqmin", "min1", "nearmax", "gtmax", "kfixed", "kfixedr", "rand", "gt1mib">>
 CompSeq == <<<<0, 0>>, <<3, 1>>, <<3, 6>>, <<3, 11>>, <<2, 1>>, <<2, 3>>, <<2, 19>>, <<1, 1>>, <<1, 6>>, <<1, 9>>>>
 ClassScen == {LET lc == LenSeq[(i % Len(LenSeq)) + 1]
@@ -38,7 +38,8 @@ ClassScen == {LET lc == LenSeq[(i % Len(LenSeq)) + 1]
                alg |-> RandomElement({0, 1, 2}), rel |-> RandomElement({"lt", "eq", "gt"}), bits |-> RandomElement({5, 9}),
                hl |-> RandomElement({4, 8, 16, 32, 64}), ctype |-> cp[1], clevel |-> cp[2], meta |-> RandomElement(0..4),
                delivery |-> RandomElement({"file", "pipe"}), transport |-> RandomElement({"local", "http"}), sched |-> "natural", idx |-> i,
-               over_existing |-> RandomElement({"none", "none", "longer", "shorter"}),
+               over_existing |-> RandomElement({"none", "none", "longer", "shorter", "none+tmplong", "longer+tmplong", "none+tmpshort"}),
+               avg_off |-> RandomElement({"pow2", "pow2", "plus1", "max", "mid"}),
                reruns |-> IF lc = "gt1mib" THEN <<>> ELSE <<[nbuf |-> RandomElement({1, 2, 3, 8, 64}), delivery |-> RandomElement({"file", "pipe"}), sched |-> "natural"]>>]
               : i \in 1..NSample}
 
